@@ -132,6 +132,20 @@ func TestVerifC09(t *testing.T) {
 	more := genDataset(r0, 120, 6, 3, base.Add(3*time.Hour), &uid, false)
 	writeRows(t, sv, bs, more)
 	rows = append(rows, more...)
+	// one series whose parts nest: a wide part W, a part N inside W's time range, a part C after N but still inside W;
+	// every batch is flushed to a part of its own (the server flushes 200 ms after a write)
+	at := func(sec int) time.Time { return base.Add(5*time.Hour + time.Duration(sec)*time.Second) }
+	for _, secs := range [][]int{{1, 100, 30, 55}, {10, 20}, {40, 70}, {60, 65}} {
+		var batch []qrow
+		for _, sec := range secs {
+			uid++
+			batch = append(batch, qrow{id: "np0", uid: uid, svc: "np", n: int64(sec), dur: int64(7000 + sec), labels: []string{"np"}, codes: []int64{int64(sec)}, ts: at(sec), v: int64(sec)})
+		}
+		time.Sleep(400 * time.Millisecond)
+		writeRows(t, sv, bs, batch)
+		rows = append(rows, batch...)
+	}
+	time.Sleep(400 * time.Millisecond)
 	n := len(rows)
 	limits := []int{0, 1, 2, 7, n - 1, n, n + 1}
 	offsets := []int{0, 1, 5, n - 1, n, n + 1}
@@ -156,7 +170,16 @@ func TestVerifC09(t *testing.T) {
 			data = seriesConstant(rows)
 		}
 		sel := data
-		if b.kind == "stream" && r.Intn(3) == 0 {
+		if b.kind == "stream" && i%7 == 3 { // the series with nested parts alone
+			tr = &tree{isLeaf: true, c: &cond{tag: "id", op: modelv1.Condition_BINARY_OP_EQ, str: "np0", kind: "str"}}
+			sel = nil
+			for _, q := range data {
+				if tr.eval(q) {
+					sel = append(sel, q)
+				}
+			}
+			s.Count("c09.queries.nested_parts_series", 1)
+		} else if b.kind == "stream" && r.Intn(3) == 0 {
 			tr = genTree(r, 1)
 			sel = nil
 			for _, q := range data {
